@@ -91,7 +91,8 @@ Definition ex_pn4 (s : string) : option float :=
 
 Example tree_ok_satisfiable : tree_ok ex_pn4 ex_funcs 4 ex_tree.
 Proof.
-  cbn. repeat split; try reflexivity; try discriminate.
+  unfold ex_tree. cbn [tree_ok is_num andb]. unfold fl_ok.
+  repeat split; try (vm_compute; reflexivity); try (vm_compute; discriminate); try discriminate.
   - constructor; [intros []|constructor].
   - exists ["?t"]. repeat split; [cbn; lia | discriminate].
 Qed.
